@@ -247,6 +247,8 @@ pub struct Outcome {
     pub commits: Vec<CommitRec>,
     pub stats: Stats,
     pub final_model: MBucket,
+    /// strict-mode commits that were refused because of injected damage (C06 probe)
+    pub refused_commits: u32,
 }
 
 pub enum Source {
@@ -484,6 +486,9 @@ pub struct Engine<'a> {
     opened_once: bool,
     pending_damage: Option<u8>,
     pending_restamp: bool,
+    /// bucket paths the running write transaction has operated on (any operation)
+    touched_now: Vec<Path>,
+    touched_overflow: bool,
 }
 
 type Cache<'b, 'tx> = HashMap<Path, Bucket<'b, 'tx>>;
@@ -507,6 +512,8 @@ impl<'a> Engine<'a> {
             opened_once: false,
             pending_damage: None,
             pending_restamp: false,
+            touched_now: Vec::new(),
+            touched_overflow: false,
         }
     }
 
@@ -634,6 +641,27 @@ impl<'a> Engine<'a> {
         }
     }
 
+    /// A leaf page (two or more elements) of a bucket that the running transaction cannot have
+    /// rewritten: not the root level, and no touched path is a prefix of it or below it.
+    fn pick_live_damage(&self) -> Option<(u64, u8, u8)> {
+        let sh = self.shape.as_ref()?;
+        for b in &sh.buckets {
+            if b.path.is_empty() {
+                continue;
+            }
+            let related = self.touched_now.iter().any(|t| t.len() <= b.path.len() && b.path[..t.len()] == t[..] || b.path.len() <= t.len() && t[..b.path.len()] == b.path[..]);
+            if related || self.touched_overflow {
+                continue;
+            }
+            if let Some((off, first, second)) = b.first_key_at.first() {
+                if second > first || (second == first && *first < 0xff) {
+                    return Some((*off, *first, 0xff));
+                }
+            }
+        }
+        None
+    }
+
     /// Damage the header page that is not the current one (the other one stays intact, so the
     /// committed state is unchanged and the model needs no adjustment).
     fn damage_older_header(&mut self, kind: u8) {
@@ -656,13 +684,14 @@ impl<'a> Engine<'a> {
             // the first sector is lost
             0 => simos::damage(&self.cfg.path, base, &vec![0u8; 512.min(ps)]),
             // the page-type byte
-            1 => simos::damage(&self.cfg.path, base + 8, &[page[8] ^ 0x04]),
+            // (increments, not flips: damaging the same slot twice must not heal it)
+            1 => simos::damage(&self.cfg.path, base + 8, &[page[8].wrapping_add(4)]),
             // one byte of the record (transaction id)
-            2 => simos::damage(&self.cfg.path, base + 32 + 56, &[page[32 + 56] ^ 0x01]),
+            2 => simos::damage(&self.cfg.path, base + 32 + 56, &[page[32 + 56].wrapping_add(1)]),
             // the whole page
             3 => simos::damage(&self.cfg.path, base, &vec![0u8; ps]),
             // the checksum
-            _ => simos::damage(&self.cfg.path, base + 32 + 64, &[page[32 + 64] ^ 0x80]),
+            _ => simos::damage(&self.cfg.path, base + 32 + 64, &[page[32 + 64].wrapping_add(0x81)]),
         };
         if done {
             self.out.stats.probe("older_header_damaged_before_open");
@@ -896,11 +925,38 @@ impl<'a> Engine<'a> {
         let mut mutated = false;
         let mut n_mut = 0u32;
         let mut touched: std::collections::BTreeSet<Path> = Default::default();
+        self.touched_now.clear();
+        // handles taken from iterators open every sibling on the way: nothing is "untouched" then
+        self.touched_overflow = self.cfg.via_iter;
         loop {
             let step = match self.next_step(&view, Some(rw), readers.len()) {
                 Some(s) => s,
                 None => break,
             };
+            if let Some(p) = step.path() {
+                if p.is_empty() || matches!(step, Step::Buckets { .. } | Step::Scan { .. } | Step::Seek { .. } | Step::Range { .. } | Step::KvPairs { .. }) {
+                    // root-level calls and iterations may open buckets this list does not name
+                    if matches!(step, Step::Buckets { .. }) || p.is_empty() && !matches!(step, Step::CreateBucket { .. } | Step::GetOrCreate { .. } | Step::GetBucket { .. } | Step::DeleteBucket { .. }) {
+                        self.touched_overflow = true;
+                    }
+                }
+                let mut full = p.clone();
+                if let Some((_, name)) = step.target() {
+                    if matches!(step, Step::CreateBucket { .. } | Step::GetOrCreate { .. } | Step::DeleteBucket { .. }) {
+                        full.push(name.bytes());
+                    }
+                }
+                if let Step::GetBucket { name, .. } = &step {
+                    full.push(name.bytes());
+                }
+                if self.touched_now.len() < 64 {
+                    if !self.touched_now.contains(&full) {
+                        self.touched_now.push(full);
+                    }
+                } else {
+                    self.touched_overflow = true;
+                }
+            }
             match &step {
                 Step::Commit => {
                     if self.cfg.probe && rw && mutated {
@@ -1034,6 +1090,8 @@ impl<'a> Engine<'a> {
         if self.stop {
             return;
         }
+        // the walk opens every bucket inside this transaction
+        self.touched_overflow = true;
         let mut incons = Vec::new();
         match catch(|| walk_tx(tx, &mut incons)) {
             Err(p) => self.fail(oracle, site, format!("reading inside the transaction panicked: {}", p), rw),
@@ -1081,7 +1139,26 @@ impl<'a> Engine<'a> {
         } else if self.cfg.record_calls {
             simos::arm(vec![]);
         }
+        // strict-refusal probe (C06, strict mode): one byte of a live leaf page of a bucket this
+        // transaction did not touch is damaged behind the code's back for the duration of the
+        // commit (first key made greater than the second). If the built-in check notices and the
+        // commit is refused, "a call that returns an error changes nothing" must hold.
+        let live_damage = if self.cfg.c06 && self.cfg.strict && faulted.is_none() && readers.is_empty() && n % 3 == 0 { self.pick_live_damage() } else { None };
+        if let Some((off, _orig, bad)) = live_damage {
+            simos::damage(&self.cfg.path, off, &[bad]);
+        }
         let r = catch(move || tx.commit());
+        if let Some((off, orig, _)) = live_damage {
+            simos::damage(&self.cfg.path, off, &[orig]);
+            if matches!(&r, Ok(Err(e)) if EK::of(e) == EK::InvalidDB) {
+                simos::mark(Marker::CommitReturn { n, ok: false });
+                self.commit_no -= 1;
+                self.out.stats.probe("strict_commit_refused_on_damaged_page");
+                self.out.refused_commits += 1;
+                self.verify_committed_as(db, "refused commit", "err-trace");
+                return;
+            }
+        }
         let commit_calls = if faulted.is_some() || self.cfg.record_calls { simos::disarm().1 } else { Vec::new() };
         simos::set_growth_block(false);
         let ok = matches!(r, Ok(Ok(())));
@@ -1453,6 +1530,7 @@ impl<'a> Engine<'a> {
         if path.is_empty() {
             return;
         }
+        self.touched_overflow = true;
         let mb = match view.resolve(path) {
             Ok(b) => b,
             Err(_) => return,
